@@ -10,7 +10,7 @@ SPEC = dict(
     coq_targets=["props/C29.vo"],
     drivers=[
         dict(name="hist", kind="main", pkg="./zzverif/c29",
-             n=dict(quick=240, thorough=12000),
+             n=dict(quick=200, thorough=12000),
              ev=dict(requires=["V.lib.JsonTree", "V.models.Config"], case_type="Config.case",
                      mismatch="Config.mismatch", monitor="Config.monitor_fail")),
     ],
